@@ -122,7 +122,7 @@ def make_world(g, tag):
         # the three input forms; a Go value goes through float64, which cannot tell the two big integers apart
         # (nor 1 from 1.0: both variants are then passed as Go values or neither is)
         fa, fb = r.choice(['s', 'b']), r.choice(['s', 'b'])
-        if 'big' not in changed and not any(isinstance(getp(b, p), float) for p in changed) and r.random() < 0.25:
+        if 'big' not in changed and not any(isinstance(getp(b, p), float) for p in changed) and r.random() < 0.35:
             fa = fb = 'v'
     if kind != 'yaml' and r.random() < (0.7 if len(mts) == 1 and mts[0].startswith('A;0') else 0.4):
         # the SAME matcher values are first used by another test whose document lacks some of the masked
@@ -149,7 +149,16 @@ def make_world(g, tag):
         w.add('yaml 1 3 %s %s %s' % (r.choice(['s', 'b']), hx(yaml_of(a, gone)), mt))
         w.add('end 3')
     w.add('begin 1 %s' % hx(b'TestMask'))
-    rec = w.add('%s 1 1 %s %s %s' % (kind, fa, hx(ta), mt))
+    if kind != 'yaml' and fa == 'v' and r.random() < 0.6:
+        # while variant A (a Go value) is between marshalling and storing, a user-defined matcher of the call records
+        # a snapshot of ANOTHER Go value in another test (the sequential image of two parallel MatchJSON calls):
+        # what is stored for A is A's document
+        w.add('begin 7 %s' % hx(b'TestOtherValue'))
+        w.add('nest json 1 7 v %s' % hx(json.dumps({'user': 'bob', 'other': [3, 2, 1], 'pad': 'p' * r.randint(0, 300)})))
+        rec = w.add('%s 1 1 %s %s %s %s' % (kind, fa, hx(ta), docs.user_matcher(r.random() < 0.5, False, True), mt))
+        w.add('end 7')
+    else:
+        rec = w.add('%s 1 1 %s %s %s' % (kind, fa, hx(ta), mt))
     w.add('end 1')
     w.add('reset')
     w.add(mode_line(r.choice([True, False]), ''))
